@@ -163,6 +163,10 @@ func runC09(c *Ctx) {
 				}
 				for i := 0; i < 2; i++ {
 					x, k := at.Args[i], at.Args[1-i]
+					// the list itself is empty: nothing in it, exceptions included
+					if x.Op == "len" && isIntConst(k, 0) && x.Args[0] == srcE {
+						return true
+					}
 					if x.Op == "len" && isIntConst(k, 0) {
 						if collectsAll(g2, s2, x.Args[0], srcE, func(el *E) Ref { return u2.Atom(u2.Field(el, "Whitelist", types.Typ[types.Bool])) }) {
 							return true
